@@ -100,6 +100,17 @@ template <class A> static Verdict check_type(const std::string &text, const MUri
     p.release();
     if (e == PE_SINGLE_MM) VF_REQUIRE(mm.outstanding() == 0 && mm.bad_free == 0, "%s/%s: manager ledger unbalanced", A::name(), en);
   }
+  // the public dotted-quad converter on the host text itself (exact-size copy): success iff the grammar's IPv4address, same bytes
+  if (m.hasAuth && (m.hostKind == HK_REG || m.hostKind == HK_IP4)) {
+    std::basic_string<Ch> h = widen<Ch>(m.host);
+    std::unique_ptr<Ch[]> hb(new Ch[h.size()]);
+    if (!h.empty()) memcpy(hb.get(), h.data(), h.size() * sizeof(Ch));
+    unsigned char oct[4] = {0xEE, 0xEE, 0xEE, 0xEE};
+    int rc4 = A::ParseIpFourAddress(oct, hb.get(), hb.get() + h.size());
+    stats().sub_evaluations++;
+    if (m.hostKind == HK_IP4) VF_REQUIRE(rc4 == 0 && memcmp(oct, m.ip.data(), 4) == 0, "%s: uriParseIpFourAddress('%s'): rc=%d bytes %u.%u.%u.%u", A::name(), esc(m.host).c_str(), rc4, oct[0], oct[1], oct[2], oct[3]);
+    else VF_REQUIRE(rc4 != 0, "%s: uriParseIpFourAddress accepts '%s', which is not an IPv4address", A::name(), esc(m.host).c_str());
+  }
   // allocation failures: the k-th request of the parse fails once. A parse that reports the failure is out of scope
   // here; one that still reports success must deliver exactly the same components.
   for (int k = 1; k <= 24; k++) {
